@@ -88,11 +88,12 @@ async def run_scenario(steps, init_session=None):
         if isinstance(payload, dict) and payload.get("method") == SENTINEL:
             drain()
             state["current"] = None
+            state["sentinel_session"] = request.headers.get("mcp-session-id")
             state["done"].set()
             return httpx.Response(202, content=b"")
         k = None
         if isinstance(payload, dict):
-            k = (payload.get("params") or {}).get("_step")
+            k = (payload.get("params") or payload.get("result") or {}).get("_step")
         if k is None or not (0 <= k < len(steps)):
             state["stray"].append({"<unexpected-post>": repr(request.content[:200])})
             return httpx.Response(202, content=b"")
@@ -138,7 +139,7 @@ async def run_scenario(steps, init_session=None):
                 drain()
     finally:
         T.httpx = saved
-    return {"steps": obs, "alive": alive, "stray": state["stray"]}
+    return {"steps": obs, "alive": alive, "stray": state["stray"], "sentinel_session": state.get("sentinel_session")}
 
 
 def run_scenarios(scenarios):
